@@ -9,7 +9,9 @@ import sys
 from hypothesis import strategies as st
 
 from vf import adapter
-from vf.adapter import DETECTOR_NAMES
+from vf.adapter import DETECTOR_NAMES, OPT_DETECTOR_NAMES
+
+ALL_DETECTORS = list(DETECTOR_NAMES) + list(OPT_DETECTOR_NAMES)
 from vf.core import ROOT, HarnessError, Violation, case_hash
 from vf.gen_sem import semantic_program
 from vf.rcfg import RCFG
@@ -86,6 +88,10 @@ def multi_run(sources, detectors):
             adapter.clear_caches()
     out = [dict() for _ in sources]
     for det, res in zip(tl.detectors, results):
+        if det.NAME in OPT_DETECTOR_NAMES:
+            # one output per contract *with a finding*, in contract order: kept as the list of JSON documents
+            out[0].setdefault("__opt__", {})[det.NAME] = [json.dumps(o.to_json(), sort_keys=False) for o in res]
+            continue
         if len(res) != len(sources):
             raise Violation("multi-run-output-count", f"{det.NAME}: {len(res)} outputs for {len(sources)} contracts")
         for pos, o in enumerate(res):
@@ -93,10 +99,31 @@ def multi_run(sources, detectors):
     return out
 
 
+def decorate(draw, p):
+    """stack-neutral instruction pairs the instruction-listing detectors report, at statement boundaries
+    (the contexts and paths are compared between runs of the same text, no reference semantics is involved)"""
+    pads = [[["I", "txna", ["Accounts", "0"]], ["I", "pop", []]]]
+    if p["version"] >= 3:
+        pads += [[["I", "txn", ["GroupIndex"]], ["I", "gtxns", ["Fee"]], ["I", "pop", []]],
+                 [["I", "int", ["0"]], ["I", "gtxns", ["Fee"]], ["I", "pop", []]],
+                 [["I", "pushint", ["1"]], ["I", "gtxns", ["Sender"]], ["I", "pop", []]]]
+    items = []
+    n = 0
+    for it in p["items"]:
+        if it[0] == "I" and len(it) > 3 and it[3].get("s") and n < 6 and draw(st.integers(0, 2)) == 0:
+            items += [list(x) for x in draw(st.sampled_from(pads))]
+            n += 1
+        items.append(it)
+    p["items"] = items
+    if n:
+        p["features"] = sorted(set(p["features"]) | {"instruction_listing_findings"})
+    return p
+
+
 @st.composite
 def history_case(draw, disabled=()):
     npool = draw(st.integers(2, 3))
-    pool = [draw(semantic_program(profile="modelled", disabled=disabled, max_stmts=8)) for _ in range(npool)]
+    pool = [decorate(draw, draw(semantic_program(profile="modelled", disabled=disabled, max_stmts=8))) for _ in range(npool)]
     ops = []
     for _ in range(draw(st.integers(3, 10))):
         k = draw(st.integers(0, 9))
@@ -104,11 +131,11 @@ def history_case(draw, disabled=()):
         if k <= 3:
             ops.append(["analyse", i])
         elif k <= 7:
-            dets = draw(st.lists(st.sampled_from(DETECTOR_NAMES), min_size=1, max_size=9, unique=True))
+            dets = draw(st.lists(st.sampled_from(ALL_DETECTORS), min_size=1, max_size=12, unique=True))
             ops.append(["detect", i, dets, draw(st.integers(1, 2))])
         elif k == 8 and draw(st.booleans()):
             order = draw(st.lists(st.integers(0, npool - 1), min_size=2, max_size=4))
-            dets = draw(st.lists(st.sampled_from(DETECTOR_NAMES), min_size=1, max_size=9, unique=True))
+            dets = draw(st.lists(st.sampled_from(ALL_DETECTORS), min_size=1, max_size=12, unique=True))
             ops.append(["multi", order[0], order, dets])
         elif k == 8:
             ops.append(["function", i])
@@ -155,8 +182,13 @@ def check(case):
             # several contracts analysed by one Tealer object (as a group configuration does): the results for
             # each contract must not depend on the contracts that come before it in the same run
             got = multi_run([texts[j] for j in op[2]], op[3])
+            for n in op[3]:
+                if n in OPT_DETECTOR_NAMES:
+                    want = [x for j in op[2] for x in [json.dumps(d, sort_keys=False) for d in json.loads(base[j]["detectors"][n]["json"])]]
+                    if got[0].get("__opt__", {}).get(n) != want:
+                        raise Violation("other-contracts-change-json", f"{n}: programs {op[2]} analysed in one run: outputs differ from the single runs\n" + "\n---\n".join(texts[x] for x in op[2]))
             for pos, j in enumerate(op[2]):
-                for n in op[3]:
+                for n in [x for x in op[3] if x not in OPT_DETECTOR_NAMES]:
                     if got[pos][n]["paths"] != base[j]["detectors"][n]["paths"]:
                         raise Violation("other-contracts-change-paths", f"{n}: program {j} analysed in one run with programs {op[2]} (position {pos}): paths {got[pos][n]['paths']} != alone {base[j]['detectors'][n]['paths']}\n" + "\n---\n".join(texts[x] for x in op[2]))
                     if got[pos][n]["json"] != base[j]["detectors"][n]["json"]:
